@@ -144,6 +144,11 @@ void ScriptConstArrayHolder::Archive(Archiver& arc)
     {
         uint32_t sz32;
         arc.ArchiveUInt32(sz32);
+        if (sz32 > arc.GetRemainingSize())
+        {
+            // every element takes bytes of the stream: do not allocate on the say-so of a damaged count
+            throw ArchiveErrors::ReadStreamFail();
+        }
         size = sz32;
     }
     else
